@@ -37,6 +37,8 @@ type c07Scen struct {
 	Shape int `json:"shape,omitempty"`
 	// DL: the requests' contexts carry a (far) deadline; cancellation must be honoured all the same
 	DL bool `json:"dl,omitempty"`
+	// Comp: the requests are made by a Component (XEP-0114), whose receive loop routes in arrival order
+	Comp bool `json:"comp,omitempty"`
 }
 
 type c07Proc struct {
@@ -110,7 +112,11 @@ func c07RunOne(w *tr.Writer, tid int, raw json.RawMessage, c *common) error {
 	if sc.Stress == 0 {
 		gk = gate
 	}
-	env, err := newSessEnv(w, tid, envOpts{GateKV: gk, Handler: func(s xmpp.Sender, p stanza.Packet) {
+	mkEnv := newSessEnv
+	if sc.Comp {
+		mkEnv = newCompEnv
+	}
+	env, err := mkEnv(w, tid, envOpts{GateKV: gk, Handler: func(s xmpp.Sender, p stanza.Packet) {
 		if iq, ok := p.(*stanza.IQ); ok {
 			k := 0
 			fmt.Sscanf(iq.From, "k%d@resp", &k)
@@ -121,6 +127,12 @@ func c07RunOne(w *tr.Writer, tid int, raw json.RawMessage, c *common) error {
 		return err
 	}
 	env.startReader()
+	sendIQ := func(ctx context.Context, iq *stanza.IQ) (chan stanza.IQ, error) {
+		if sc.Comp {
+			return env.comp.SendIQ(ctx, iq)
+		}
+		return env.client.SendIQ(ctx, iq)
+	}
 	idStr := func(i int) string { return "req-id-" + strconv.Itoa(i) }
 
 	type req struct {
@@ -170,7 +182,7 @@ func c07RunOne(w *tr.Writer, tid int, raw json.RawMessage, c *common) error {
 		ctx, cancel := context.WithCancel(context.Background())
 		iq, _ := stanza.NewIQ(stanza.Attrs{Type: stanza.IQTypeGet, Id: idStr(1), To: "localhost"})
 		iq.Payload = &stanza.Version{}
-		ch, err := env.client.SendIQ(ctx, iq)
+		ch, err := sendIQ(ctx, iq)
 		w.Emit(tr.Rec{"ev": "sb", "r": "r1", "id": 1, "ok": err == nil})
 		all := ""
 		for k := 1; k <= sc.Stress; k++ {
@@ -230,7 +242,7 @@ func c07RunOne(w *tr.Writer, tid int, raw json.RawMessage, c *common) error {
 				close(ready)
 				iq, _ := stanza.NewIQ(stanza.Attrs{Type: stanza.IQTypeGet, Id: idStr(r.id), To: "localhost"})
 				iq.Payload = &stanza.Version{}
-				ch, err := env.client.SendIQ(r.ctx, iq)
+				ch, err := sendIQ(r.ctx, iq)
 				r.ch = ch
 				_ = err
 				close(r.sp.done)
@@ -258,7 +270,7 @@ func c07RunOne(w *tr.Writer, tid int, raw json.RawMessage, c *common) error {
 					byGoid[goid()] = p
 					gmu.Unlock()
 					close(ready)
-					xmpp.VerifRoute(env.router, env.client, mkResp(k, dispID[k]))
+					xmpp.VerifRoute(env.router, env.sender, mkResp(k, dispID[k]))
 					close(p.done)
 				}()
 				<-ready
@@ -406,17 +418,18 @@ func runC07(args []string) error {
 	tid := 0
 	for _, ln := range lines {
 		tid++
-		if tid%2 == 0 {
+		if tid%2 == 0 || tid%5 == 0 {
 			var sc c07Scen
-			if json.Unmarshal(ln, &sc) == nil && !sc.DL {
-				sc.DL = true
+			if json.Unmarshal(ln, &sc) == nil {
+				sc.DL = sc.DL || tid%2 == 0
+				sc.Comp = sc.Comp || tid%5 == 0
 				ln, _ = json.Marshal(sc)
 			}
 		}
 		scens = append(scens, tidScen{tid, ln})
 	}
 	for i := 0; i < *stress; i++ {
-		b, _ := json.Marshal(c07Scen{Stress: 1 + i%7, Shape: (i / 7) % 4})
+		b, _ := json.Marshal(c07Scen{Stress: 1 + i%7, Shape: (i / 7) % 4, Comp: i%3 == 2})
 		tid++
 		scens = append(scens, tidScen{1000000 + tid, b})
 	}
